@@ -274,6 +274,16 @@ def _laws(case, ctx):
                         if not np.allclose(np.asarray(gs), np.asarray(got), rtol=0, atol=2 * tol):
                             ctx.fail('compare|method=%s,%s|scale-variant' % (method, tag), dict(sub, c=c),
                                      'first argument times %g: %r vs %r' % (c, gs, got))
+                # offsets: Pearson and the rank measures do not depend on a constant added to one argument;
+                # dissimilarities with a large common offset (raw units, 1 - r close to 1) are ordinary
+                # inputs. The shifted values are exact only to ~c * 2^-52, hence the tolerance.
+                if method in ('corr', 'spearman', 'kendall', 'tau-b', 'tau-a', 'rho-a'):
+                    for c in (1e4, 1e6):
+                        gs = compare(_wrap(X + c, 'rdms'), _wrap(Y, 'rdms'), method=method)
+                        ctx.case(dict(sub, law='offset', c=c))
+                        if not np.allclose(np.asarray(gs), np.asarray(got), rtol=0, atol=max(2 * tol, 1e-15 * c * 100)):
+                            ctx.fail('compare|method=%s,%s|offset-variant' % (method, tag), dict(sub, c=c),
+                                     'first argument plus %g: %r vs %r' % (c, gs, got))
                 # self similarity
                 selfs = compare(_wrap(X, 'rdms'), _wrap(X, 'rdms'), method=method, **kw)
                 ctx.case(dict(sub, law='self'))
@@ -349,6 +359,22 @@ def _sequence(case, ctx):
                 ctx.fail('compare|method=%s|input-modified' % method, sub,
                          'compare(..., %r) changed its input objects' % method)
                 return
+    # the caller now writes new values into the SAME objects (a documented thing to do with the
+    # arrays of an RDMs object): every measure must describe the current values, not remembered ones
+    X1 = np.round(g.uniform(0.5, 3.0, size=X.shape), 4)
+    Y1 = Y0[::-1].copy()
+    if isinstance(a, np.ndarray):
+        a[...] = X1
+        b[...] = Y1
+    else:
+        a.dissimilarities[...] = X1
+        b.dissimilarities[...] = Y1
+    for step, method in enumerate(seq):
+        sub = dict(case, step=step, method=method, sequence=seq, after='in-place write of new values')
+        with ctx.guard('compare|after-in-place-write,method=%s' % method, sub):
+            got = compare(a, b, method=method)
+            tol = TOL_CG if method in WHITE else TOL_PLAIN
+            _judge_matrix(ctx, sub, method, got, X1, Y1, None, tol, 'after-in-place-write')
 
 
 def _bures(case, ctx):
